@@ -6,6 +6,9 @@
 #include "kit/ppl_all.hh"
 #include "kit/faults.hh"
 #include "kit/runner.hh"
+#include <sys/wait.h>
+#include <unistd.h>
+#include <signal.h>
 #include <sstream>
 #include <memory>
 
@@ -118,8 +121,9 @@ struct PipHarness : Harness {
   int child_seconds() const override { return 120; }
   void warmup() override { fault_install_hooks(); }
 
-  Plan generate(Rng& r, const std::string&, bool thorough) override {
+  Plan generate(Rng& r, const std::string& prop, bool thorough) override {
     Plan p; p.domain = "PIP_Problem";
+    bool c14 = prop == "C14";
     p.knobs["vars"] = r.range(1, 3); p.knobs["params"] = r.range(0, 2); p.knobs["pool"] = r.range(1, 2);
     p.knobs["strict"] = r.chance(30);
     p.knobs["allstrat"] = r.chance(50);
@@ -133,9 +137,130 @@ struct PipHarness : Harness {
       if (op.kind == "clear" && r.chance(80)) op.kind = "add_constraint";
       op.a = { r.range(0, 1), r.range(0, 1), r.range(0, 5) };
       for (int k = 0; k < 2; ++k) { for (dimension_type j = 0; j < MAXD; ++j) op.a.push_back(r.chance(40) ? 0 : r.range(-3, 3)); op.a.push_back(r.range(-4, 4)); op.a.push_back(r.range(0, 5)); }
+      if (c14 && i >= 2 && r.chance(40)) {
+        static const char* fk[] = { "alloc", "alloc", "allocs", "abandon", "abandon", "flag", "weight" };
+        op.fault = fk[r.below(sizeof fk / sizeof *fk)]; op.fk = (long) r.below(100000);
+      }
       p.ops.push_back(op);
     }
     return p;
+  }
+
+  // ---------------------------------------------------------------- C14: fault branches (same scheme as obj_core.hh / mip.cc)
+  static std::string fkl(const Op& op, const std::string& extra) { return "PIP_Problem|" + op.kind + "|" + op.fault + (extra.empty() ? "" : "|" + extra); }
+
+  template <class F> bool in_grandchild(Ctx& ctx, const Op& op, const char* what, F body) {
+    fflush(stdout); fflush(stderr);
+    pid_t g = fork();
+    if (g < 0) return false;
+    if (g == 0) { signal(SIGALRM, SIG_DFL); alarm(60); ctx.reset_for_branch(); body(); ctx.flush(false); _exit(0); }
+    int st = 0;
+    while (waitpid(g, &st, 0) < 0 && errno == EINTR) {}
+    if (ctx.sh) ctx.sh->in_branch = 0;
+    if (WIFEXITED(st) && WEXITSTATUS(st) == 0) return true;
+    std::string how = WIFSIGNALED(st) ? "sig" + std::to_string(WTERMSIG(st)) : "exit" + std::to_string(WEXITSTATUS(st));
+    std::string mon = (WIFEXITED(st) && WEXITSTATUS(st) == 77) ? "sanitizer" : (WIFEXITED(st) && WEXITSTATUS(st) == 78) ? "terminate" : "crash";
+    ctx.violation("C14", mon + "-in-fault-branch", fkl(op, std::string(what) + "|" + how + "|" + (ctx.sh ? std::string(ctx.sh->note) : "")), "fault branch died (" + how + ") during: " + (ctx.sh ? std::string(ctx.sh->note) : ""));
+    return false;
+  }
+  static Constraint con_of(dimension_type dim, const Op& op, size_t base, bool strict_ok) {
+    Linear_Expression e; for (dimension_type j = 0; j < dim; ++j) e += (op.arg(base + j) % 4) * Variable(j);
+    e += op.arg(base + MAXD) % 5; long rel = op.mod(base + MAXD + 1, 6);
+    return rel == 0 ? (e == 0) : (rel == 1 && strict_ok) ? (e > 0) : (e >= 0);
+  }
+  static bool faultable(const std::string& k) { return k == "add_constraint" || k == "add_constraints" || k == "solve" || k == "is_satisfiable" || k == "add_dims" || k == "copy" || k == "assign" || k == "dump_load"; }
+  static bool logically_const(const std::string& k) { return k == "solve" || k == "is_satisfiable" || k == "copy" || k == "dump_load"; }
+  static void lib_call(PIP_Problem& p, PIP_Problem& q, const Op& op, bool strict_ok) {
+    const std::string& k = op.kind; dimension_type dim = p.space_dimension();
+    if (k == "add_constraint") p.add_constraint(con_of(dim, op, 3, strict_ok));
+    else if (k == "add_constraints") { Constraint_System cs; cs.insert(con_of(dim, op, 3, strict_ok)); cs.insert(con_of(dim, op, 3 + MAXD + 2, strict_ok)); p.add_constraints(cs); }
+    else if (k == "solve") (void) p.solve();
+    else if (k == "is_satisfiable") (void) p.is_satisfiable();
+    else if (k == "add_dims") { dimension_type mv = (dimension_type) op.mod(2, 2), mp = (dimension_type) op.mod(3, 2); if (dim + mv + mp > MAXD) return; p.add_space_dimensions_and_embed(mv, mp); }
+    else if (k == "copy") { PIP_Problem c(p); (void) c.OK(); }
+    else if (k == "assign") q = p;
+    else if (k == "dump_load") { std::ostringstream o; p.ascii_dump(o); std::istringstream in(o.str()); PIP_Problem z(0); (void) z.ascii_load(in); }
+  }
+
+  void fault_branches(Ctx& ctx, const Op& op, Slot& x, Slot& y, bool strict_ok) {
+    Shared* sh = ctx.sh;
+    if (!sh || !faultable(op.kind)) return;
+    const std::string fk = op.fault;
+    bool okc = in_grandchild(ctx, op, "count", [&]() {
+      unsigned long long w0 = PPL::Weightwatch_Traits::weight;
+      fault_arm_count(); g_fault.ab_at = STEP_BUDGET; bool threw = false;
+      ctx.note("count: call");
+      try { lib_call(*x.p, *y.p, op, strict_ok); } catch (...) { threw = true; }
+      long a = g_fault.count, b = g_fault.ab_count; fault_disarm(); fault_lower_flag();
+      sh->scratch[0] = a; sh->scratch[1] = b; sh->scratch[2] = (long) (PPL::Weightwatch_Traits::weight - w0); sh->scratch[3] = threw ? 1 : 0;
+    });
+    if (!okc || sh->scratch[3]) { ctx.stat("c14.skipped_op_throws_unfaulted"); return; }
+    long space = fk == "abandon" ? sh->scratch[1] : fk == "weight" ? sh->scratch[2] : sh->scratch[0];
+    if (space <= 0) { ctx.stat("c14.fault_has_no_position." + fk); return; }
+    if (sh->scratch[1] > 50000) { ctx.stat("c14.skipped_expensive_solve"); return; }
+    long k = op.fk % space;
+    in_grandchild(ctx, op, fk.c_str(), [&]() {
+      ctx.note("branch: copies");
+      PIP_Problem good_x(*x.p), good_y(*y.p);
+      std::string outcome = "completed";
+      ctx.note(("branch: faulted call " + fk + "@" + std::to_string(k)).c_str());
+      {
+        typedef PPL::Threshold_Watcher<PPL::Weightwatch_Traits> WW;
+        std::unique_ptr<WW> ww;
+        if (fk == "weight") { ww.reset(new WW((PPL::Weightwatch_Traits::Delta) (k + 1), PPL::abandon_expensive_computations, g_sim_throwable)); fault_arm_count(); }
+        else if (fk == "alloc") fault_arm_alloc(k, false);
+        else if (fk == "allocs") fault_arm_alloc(k, true);
+        else if (fk == "abandon") fault_arm_abandon(k);
+        else fault_arm_flag(k);
+        try { lib_call(*x.p, *y.p, op, strict_ok); }
+        catch (const std::bad_alloc&) { outcome = "bad_alloc"; }
+        catch (const Sim_Abandon&) { outcome = "abandoned"; }
+        catch (const std::exception& e) { outcome = std::string("other:") + e.what(); }
+        catch (...) { outcome = "other:unknown"; }
+        bool fired = g_fault.failed > 0 || g_fault.ab_fired || g_fault.flag_raised || (fk == "weight" && PPL::abandon_expensive_computations != nullptr);
+        fault_disarm(); fault_lower_flag();
+        if (fired) ++ctx.faults_fired;
+        ctx.stat("c14.fault." + fk + "." + (fired ? "fired" : "not_fired"));
+        ctx.stat("c14.outcome." + fk + "." + (outcome.compare(0, 6, "other:") == 0 ? "other" : outcome));
+        ctx.note("branch: watcher teardown");
+      }
+      bool expect_alloc = fk == "alloc" || fk == "allocs";
+      if (outcome.compare(0, 6, "other:") == 0) ctx.violation("C14", "wrong-exception", fkl(op, outcome.substr(0, 60)), "injected " + fk + " surfaced as " + outcome);
+      else if (outcome == "bad_alloc" && !expect_alloc) ctx.violation("C14", "wrong-exception", fkl(op, "bad_alloc"), "bad_alloc without an injected allocation failure");
+      else if (outcome == "abandoned" && expect_alloc) ctx.violation("C14", "wrong-exception", fkl(op, "abandoned"), "abandonment without an injected abandonment");
+      if (PPL::Weightwatch_Traits::check_function != nullptr) ctx.violation("C14", "global-state", fkl(op, "check_function"), "Weightwatch check_function left installed");
+      if (outcome == "completed" || !ctx.viols.empty()) return;
+      // direct use: valid object; after a logically const call the problem still has the solution tree of its model
+      ctx.note("branch: direct use of the objects that were hit");
+      bool ok = false; try { ok = x.p->OK(); } catch (const std::exception&) {}
+      ctx.stat("c14.direct_use_checks");
+      if (!ok) { ctx.violation("C14", "damaged-not-ok", fkl(op, outcome), "OK() is false for a PIP_Problem involved in a call cut short by " + outcome + " (before any recovery)"); return; }
+      if (op.kind == "assign" && &x != &y) { bool oky = false; try { oky = y.p->OK(); } catch (const std::exception&) {} if (!oky) { ctx.violation("C14", "damaged-not-ok", fkl(op, outcome + "|target"), "OK() is false for the target of an assignment cut short by " + outcome); return; } }
+      if (logically_const(op.kind)) {
+        std::string who = "after-" + outcome;
+        int st = solve_budgeted(ctx, op, *x.p, who, false);
+        if (st < 0) return;
+        size_t before = ctx.viols.size();
+        judge_tree(ctx, op, *x.p, x.m, who, st == 0);
+        if (ctx.viols.size() > before) { ctx.viols.back().prop = "C14"; ctx.viols.back().monitor = "const-op-changed-problem"; ctx.viols.back().klass = fkl(op, outcome); return; }
+      }
+      ctx.note("branch: recovery");
+      long mode = (op.fk + k) % 3;
+      if (mode == 0) { x.p.reset(); x.p.reset(new PIP_Problem(good_x)); } else if (mode == 1) *x.p = good_x; else { PIP_Problem t(good_x); using std::swap; swap(*x.p, t); }
+      if (!x.p->OK()) ctx.violation("C14", "recovered-not-ok", fkl(op, mode == 1 ? "assign" : mode == 2 ? "swap" : "recreate"), "PIP_Problem recovered after " + outcome + " fails OK()");
+      else {
+        int st = solve_budgeted(ctx, op, *x.p, "recovered", false);
+        if (st >= 0) { size_t before = ctx.viols.size(); judge_tree(ctx, op, *x.p, x.m, "recovered", st == 0);
+          if (ctx.viols.size() > before) { ctx.viols.back().prop = "C14"; ctx.viols.back().monitor = "recovered-differs"; ctx.viols.back().klass = fkl(op, ""); } }
+      }
+      if (!ctx.viols.empty()) return;
+      ctx.note("branch: teardown");
+      x.p.reset(); if (&x != &y) y.p.reset();
+      { PIP_Problem e1(0); using std::swap; swap(good_x, e1); PIP_Problem e2(0); swap(good_y, e2); }
+      ctx.stat("c14.leak_checks");
+      std::string site;
+      if (lsan_leaks_site(site)) ctx.violation("C14", "leak", fkl(op, "site=" + site), "memory allocated during a call cut short by " + outcome + " is unreachable after every problem was destroyed (first non-allocator frame: " + site + ")");
+    });
   }
 
   static std::string kl(const Op& op, const std::string& extra) { return "PIP_Problem|" + op.kind + "|-|" + extra; }
@@ -254,6 +379,8 @@ struct PipHarness : Harness {
       const std::string& k = op.kind;
       ctx.log(k);
       ctx.state(k + "|solved" + std::to_string(x.solved_before) + "|inc" + std::to_string(x.added_after_solve) + "|c" + std::to_string(x.cut) + "p" + std::to_string(x.piv) + "|rows" + std::to_string(std::min<size_t>(x.m.rows.size(), 8)));
+      if (!op.fault.empty() && plan.prop == "C14") fault_branches(ctx, op, x, y, strict_ok);
+      if (!ctx.viols.empty()) break;
       try {
         if (k == "add_constraint") add_row(x, op, 3, strict_ok);
         else if (k == "add_constraints") { add_row(x, op, 3, strict_ok); add_row(x, op, 3 + MAXD + 2, strict_ok); }
